@@ -26,7 +26,7 @@ for sid in ids:
         if ap.returncode != 0:
             rows.append((sid, prop, "PATCH-DOES-NOT-APPLY", ap.stderr.strip()[:100]))
             continue
-        env = dict(os.environ, VERIF_REPO=wt)
+        env = dict(os.environ, VERIF_REPO=wt, VERIF_EVIDENCE_DIR=os.path.join(ROOT, "work", "seeded-evidence"))
         p = subprocess.run([os.path.join(ROOT, "check"), prop, "--tier", tier], cwd=ROOT, env=env, capture_output=True, text=True)
         viol = [l for l in p.stdout.split("\n") if l.startswith("VIOLATION")]
         rows.append((sid, prop, "CAUGHT" if p.returncode == 1 and viol else "MISSED", (viol or [p.stdout.strip().split("\n")[-1]])[0][:160]))
